@@ -1072,6 +1072,25 @@ def check_nest(rep, ix):
     rep.ob('R-C18-NEST', 'scan', 'elements opened through `with`', n_with >= 250, found=str(n_with))
 
 
+def check_br(rep, ix):
+    """XhtmlStream.charactersWithBr: a line feed becomes <br/>, every other character is text written by characters() (so
+    it is encoded and recovered); str.splitlines() would also cut at \\r, \\v, \\f, \\x1c-\\x1e, \\x85, \\u2028, \\u2029
+    and lose those characters."""
+    m = ix.module(XW)
+    f = ix.get_func(XW, 'XhtmlStream.charactersWithBr')
+    site = f'{XW}:XhtmlStream.charactersWithBr'
+    rep.fn(site)
+    p0 = f.args.args[1].arg
+    calls = [_n(c.func) for c in common.calls_in(f)]
+    uses_splitlines = any(c.endswith('.splitlines') for c in calls)
+    cuts = [c for c in common.calls_in(f) if isinstance(c.func, ast.Attribute) and c.func.attr in ('find', 'split', 'index', 'partition') and c.args]
+    ok = not uses_splitlines and bool(cuts) and all(isinstance(c.args[0], ast.Constant) and c.args[0].value == '\n' for c in cuts)
+    rep.ob('R-C18-SINK', site, 'only the line feed is turned into <br/> (the text is cut at "\\n" and nowhere else)', ok,
+           found=', '.join(sorted(set(calls)))[:160], required="find / split on '\\n' only; no splitlines()", node=f, module=m)
+    texts = [c for c in common.calls_in(f) if _n(c.func) == 'self.characters']
+    rep.ob('R-C18-SINK', site, 'the pieces between line feeds are written with characters()', len(texts) >= 1 and not any(_n(c.func) in ('self.literal', 'self._file.write') for c in common.calls_in(f)), node=f, module=m)
+
+
 def check_indent(rep, ix):
     m = ix.module(XW)
     S = f'{XW}:XmlStream'
@@ -1168,6 +1187,7 @@ def run(rep, ix, tier):
     check_callsites(rep, ix)
     check_nest(rep, ix)
     check_indent(rep, ix)
+    check_br(rep, ix)
     check_index(rep, ix)
     C16.check_item(rep, ix)
     C16.check_container(rep, ix)
